@@ -1,6 +1,8 @@
 package rules
 
 import (
+	"golang.org/x/tools/go/cfg"
+
 	"go/ast"
 	"go/token"
 	"go/types"
@@ -156,6 +158,28 @@ func localAliasesMode(info *types.Info, fd *ast.FuncDecl, multi bool) map[types.
 							defs[o] = append(defs[o], x.Rhs[i])
 						}
 					}
+					// `tmp.Value[0] = ctIn.Value[0]`: the element of the local now *is* the operand's polynomial (the header
+					// is copied, the coefficients are shared)
+					if ie, ok := unparen(l).(*ast.IndexExpr); ok && x.Tok == token.ASSIGN && isViewExpr(x.Rhs[i]) {
+						if _, lit := unparen(x.Rhs[i]).(*ast.CompositeLit); !lit && sharesStorage(info.TypeOf(x.Rhs[i])) {
+							if r := rootIdent(ie); r != nil {
+								if o := info.Uses[r]; o != nil {
+									if elemAlias[o] == nil {
+										elemAlias[o] = map[string][]elemView{}
+									}
+									dup := false
+									for _, ev := range elemAlias[o][exprString(ie)] {
+										if ev.view == x.Rhs[i] {
+											dup = true
+										}
+									}
+									if !dup {
+										elemAlias[o][exprString(ie)] = append(elemAlias[o][exprString(ie)], elemView{x.Rhs[i], reachAfter(info, fd, x.Pos())})
+									}
+								}
+							}
+						}
+					}
 				}
 			} else {
 				for _, l := range x.Lhs {
@@ -192,6 +216,98 @@ func localAliasesMode(info *types.Info, fd *ast.FuncDecl, multi bool) map[types.
 		}
 	}
 	return out
+}
+
+// elemAliasTop: the expression resolved at depth 0 is written *through* (ring-operation destination, in-place
+// method), not replaced by an assignment — only then does an element that holds a view stand for the view.
+var elemAliasTop bool
+
+// rootsOfWrite resolves the target of a write site.
+func rootsOfWrite(info *types.Info, w writeSite, aliases map[types.Object][]ast.Expr) []rootInfo {
+	elemAliasTop = w.how != "assignment"
+	elemAliasAt = w.pos
+	defer func() { elemAliasTop, elemAliasAt = false, token.NoPos }()
+	return rootsOf(info, w.target, aliases, 0)
+}
+
+// elemAlias: element stores of views into composite locals, per root object and textual element (`tmp.Value[0]`).
+var elemAlias = map[types.Object]map[string][]elemView{}
+
+// elemView: the stored view and the program points that can execute after the store (go/cfg reachability).
+type elemView struct {
+	view    ast.Expr
+	reaches func(pos token.Pos) bool
+}
+
+// elemAliasAt: position of the write site being resolved (token.NoPos: unknown, every store counts).
+var elemAliasAt token.Pos
+
+// reachAfter returns a predicate telling whether a position of fd's body can execute after the statement at `from`.
+func reachAfter(info *types.Info, fd *ast.FuncDecl, from token.Pos) func(token.Pos) bool {
+	g := buildCFG(info, fd.Body)
+	if g == nil {
+		return func(token.Pos) bool { return true }
+	}
+	blockOf := func(pos token.Pos) (*cfg.Block, int) {
+		var best *cfg.Block
+		bi := -1
+		var bestLen token.Pos = 1 << 40
+		for _, b := range g.Blocks {
+			for i, n := range b.Nodes {
+				if n.Pos() <= pos && pos < n.End() && n.End()-n.Pos() < bestLen {
+					best, bi, bestLen = b, i, n.End()-n.Pos()
+				}
+			}
+		}
+		return best, bi
+	}
+	fb, fi := blockOf(from)
+	if fb == nil {
+		return func(token.Pos) bool { return true }
+	}
+	seen := map[*cfg.Block]bool{}
+	var stack []*cfg.Block
+	for _, s := range fb.Succs {
+		stack = append(stack, s)
+	}
+	for len(stack) > 0 {
+		b := stack[len(stack)-1]
+		stack = stack[:len(stack)-1]
+		if seen[b] {
+			continue
+		}
+		seen[b] = true
+		stack = append(stack, b.Succs...)
+	}
+	return func(pos token.Pos) bool {
+		tb, ti := blockOf(pos)
+		if tb == nil {
+			return true
+		}
+		if tb == fb && ti > fi {
+			return true
+		}
+		return seen[tb]
+	}
+}
+
+// sharesStorage: a value of this type copied by assignment still refers to the same coefficients (polynomials, slices,
+// pointers, maps).
+func sharesStorage(t types.Type) bool {
+	if t == nil {
+		return false
+	}
+	switch u := t.Underlying().(type) {
+	case *types.Slice, *types.Pointer, *types.Map:
+		return true
+	case *types.Struct:
+		for i := 0; i < u.NumFields(); i++ {
+			if sharesStorage(u.Field(i).Type()) {
+				return true
+			}
+		}
+	}
+	return false
 }
 
 func isViewExpr(e ast.Expr) bool {
@@ -324,6 +440,19 @@ func rootsOf(info *types.Info, e ast.Expr, aliases map[types.Object][]ast.Expr, 
 		return rs
 	case *ast.IndexExpr:
 		rs := rootsOf(info, x.X, aliases, depth+1)
+		if r := rootIdent(x); r != nil && (depth > 0 || elemAliasTop) {
+			if views := elemAlias[info.Uses[r]][exprString(x)]; len(views) > 0 {
+				for _, ev := range views {
+					if elemAliasAt != token.NoPos && !ev.reaches(elemAliasAt) {
+						continue // the write cannot execute after the element received the view
+					}
+					for _, ri := range rootsOf(info, ev.view, aliases, depth+1) {
+						ri.deref = true
+						rs = append(rs, ri)
+					}
+				}
+			}
+		}
 		isArr := false
 		if t := info.TypeOf(x.X); t != nil {
 			_, isArr = deref(t).Underlying().(*types.Array)
